@@ -9,7 +9,15 @@ Granularity proved here: a schedule is an arbitrary merge of the handles' *atomi
 cell, load-free] ; [seek + build the `ZipFile`], `ZipFile::data_start()` is one load, and every other
 call is one step touching only handle-local or immutable data.  Each cell access is a single relaxed
 atomic on one location, so per-location coherence makes every real execution an interleaving of these
-steps as far as the cells are concerned; memory-model subtleties beyond per-location coherence, and the
+steps as far as the cells are concerned;
+HYPOTHESIS ON THE READER (the property says "each with its own cloned reader"): `R::clone` yields a reader
+with its OWN position over the same bytes - in the model every `Handle` carries its own `pos` and no step of
+another handle touches it.  Readers whose clones share one cursor (`ZipArchive<&File>`, `File::try_clone`)
+are NOT covered; `sharedPos_breaks_independence` below shows, in the model's own terms, that the statement
+is false for them (a resumed partial read returns another entry's bytes).
+Passwords: the verdict of a decrypting open is `A.unlock i p`, a function of entry and password alone
+(`decrypt_outcome_by_entry_and_password`); nothing one handle presents can change what another one gets.
+Memory-model subtleties beyond per-location coherence, and the
 real OS scheduler, are outside the model (they are exercised, not proved, by the `clones.threads` stress
 op of the harness).  `ZipArchive<R>: Send + Sync` is a type-checker fact asserted at compile time in the
 harness, not a Lean theorem.
@@ -28,8 +36,8 @@ of the immutable archive and the index only: whenever, after any schedule, some 
 execute its store step, the value it carries is `f i`. -/
 theorem store_value_determined (A : Arch) (scripts : List (List Op)) (sched : List Nat)
     (H : Handle) (hH : H ∈ (run A (Sys.init A scripts) sched).hs)
-    (i : Nat) (raw : Bool) (v : UInt64) (hpc : H.pc = .storing i raw v) : A.f i = some v :=
-  ((good_run (good_init A scripts) sched).handles H hH).storing i raw v hpc
+    (i : Nat) (md : Mode) (v : UInt64) (hpc : H.pc = .storing i md v) : A.f i = some v :=
+  ((good_run (good_init A scripts) sched).handles H hH).storing i md v hpc
 
 /-- **Invariant of the shared cells** after any schedule of any number of handles running any scripts:
 there is one cell per entry, every cell is still `0` or already holds `f i`, and if some handle has entry
@@ -97,10 +105,36 @@ theorem runAlone_complete (A : Arch) (script : List Op) :
   obtain ⟨h1, h2, h3⟩ := solo_finished A script (initCells A) (Handle.init script) rfl rfl
   exact ⟨h2, h1, by simpa [runAlone, soloFinal, Handle.init] using h3⟩
 
+/-- The observation of one opening call run alone on a fresh archive, when the local header is fine
+(`A.g i md = some v`): exactly the last observation `finishOpen` emits. -/
+theorem runAlone_open (A : Arch) (op : Op) (i : Nat) (md : Mode) (v : UInt64)
+    (ht : op.target A = some (i, md)) (hv : A.g i md = some v) :
+    soloFinal A [op] = finishOpen A
+      { beginOpen A { Handle.init [op] with script := [] } i md with pc := .seeking i md v } i md v := by
+  have h3 : atomicSteps A [op] = 3 := by simp [atomicSteps, opSteps_target ht, hv]
+  unfold soloFinal
+  rw [h3, solo_open3 A _ (Handle.init [op]) op [] rfl rfl i md ht v hv]
+
+/-- A single opening call observes a function of its target (entry after name resolution, mode). -/
+theorem runAlone_single_target (A : Arch) (op op' : Op) (i : Nat) (md : Mode)
+    (ht : op.target A = some (i, md)) (ht' : op'.target A = some (i, md)) :
+    runAlone A [op] = runAlone A [op'] := by
+  unfold runAlone
+  cases hv : A.g i md with
+  | some v => rw [runAlone_open A op i md v ht hv, runAlone_open A op' i md v ht' hv]; rfl
+  | none =>
+    have h1 : atomicSteps A [op] = 1 := by simp [atomicSteps, opSteps_target ht, hv]
+    have h1' : atomicSteps A [op'] = 1 := by simp [atomicSteps, opSteps_target ht', hv]
+    unfold soloFinal
+    rw [h1, h1']
+    show (stepH A (initCells A) (Handle.init [op])).2.obs = (stepH A (initCells A) (Handle.init [op'])).2.obs
+    simp only [stepH, Handle.init]
+    rw [doOp_target _ _ ht, doOp_target _ _ ht']
+
 /-- What a handle used alone sees from `data_start()`: after a successful open of entry `i` the load
 returns `f i` — alone or interleaved (by `interleave_independent`). -/
 theorem runAlone_open_dataStart (A : Arch) (i : Nat) (v : UInt64) (hv : A.f i = some v)
-    (hd : ∀ e, A.entries[i]? = some e → e.decodable = true) :
+    (hd : ∀ e, A.entries[i]? = some e → e.decodable = true ∧ e.encrypted = false) :
     runAlone A [.openIdx i, .dataStart] = [.opened, .dataStart v] := by
   have hlt := f_lt hv
   have hv' := hv
@@ -108,16 +142,99 @@ theorem runAlone_open_dataStart (A : Arch) (i : Nat) (v : UInt64) (hv : A.f i = 
   have he : A.entries[i]? = some A.entries[i] := List.getElem?_eq_getElem hlt
   rw [he] at hv'
   simp only at hv'
-  have hdec := hd _ he
+  obtain ⟨hdec, henc⟩ := hd _ he
+  have hg : A.g i .noPw = some v := by simp [Arch.g, needsPw, he, henc, hv]
   cases hf : findContent A.bytes A.entries[i].headerStart with
   | ok w =>
     rw [hf] at hv'
     cases hv'
     have hc : (initCells A).length = A.entries.length := by simp [initCells]
-    simp [runAlone, soloFinal, atomicSteps, opSteps, hv, soloRun, stepH, Handle.init, doOp, beginOpen,
-      hf, finishOpen, hdec, Handle.emit, hc, hlt]
+    simp [runAlone, soloFinal, atomicSteps, opSteps, hg, soloRun, stepH, Handle.init, doOp, beginOpen,
+      hf, finishOpen, hdec, henc, Handle.emit, hc, hlt, needsPw]
   | err er => rw [hf] at hv'; cases hv'
   | panic => rw [hf] at hv'; cases hv'
+
+/-- What the caller of `by_index_decrypt` / `by_name_decrypt` gets for each verdict of the parameter. -/
+def unlockObs : Unlock → Obs
+  | .wrong => .invalidPassword
+  | .fails e => .openErr e
+  | .opens _ _ => .opened
+
+/-- **The outcome of a decrypting open is a function of the entry and the password only.**  For an
+encrypted entry with a decoder whose local header is fine, `by_index_decrypt(i, p)` used alone returns
+exactly the verdict of `A.unlock i p` — and by `interleave_independent` / `calls_independent` the same in
+every interleaving with any other handles, whatever passwords THEY present, before or after.  (A key
+cache shared between clones that answers a wrong password with the verdict of an earlier right one is
+not an instance of this model: the correspondence stream `clones` and its implementation-only oracle
+compare exactly these observations.) -/
+theorem decrypt_outcome_by_entry_and_password (A : Arch) (i : Nat) (p : Bytes) (e : Entry) (v : UInt64)
+    (he : A.entries[i]? = some e) (henc : e.encrypted = true) (hdec : e.decodable = true)
+    (hv : A.f i = some v) :
+    runAlone A [.openDec i p] = [unlockObs (A.unlock i p)] := by
+  have hg : A.g i (.pw p) = some v := by simp [Arch.g, needsPw, he, hv]
+  unfold runAlone
+  rw [runAlone_open A (.openDec i p) i (.pw p) v rfl hg]
+  have hb : (beginOpen A { Handle.init [Op.openDec i p] with script := [] } i (.pw p)).obs = [] :=
+    (beginOpen_some _ (.pw p) hg).2.2
+  unfold finishOpen
+  simp only [he, hdec, henc, Bool.not_true, Bool.false_eq_true, if_false]
+  cases A.unlock i p <;> simp [Handle.emit, hb, unlockObs]
+
+/-- The same through the name map. -/
+theorem decrypt_by_name_eq_by_index (A : Arch) (nm p : Bytes) :
+    runAlone A [.openNameDec nm p] = runAlone A [.openDec (A.nameIndex nm) p] ∧
+    runAlone A [.openName nm] = runAlone A [.openIdx (A.nameIndex nm)] :=
+  ⟨runAlone_single_target A _ _ _ _ rfl rfl, runAlone_single_target A _ _ _ _ rfl rfl⟩
+
+/-- `by_index` / `by_name` on an encrypted entry is refused before anything is touched: one atomic
+step, no seek, no store — whatever the other handles do. -/
+theorem open_encrypted_without_password (A : Arch) (i : Nat) (e : Entry)
+    (he : A.entries[i]? = some e) (henc : e.encrypted = true) :
+    runAlone A [.openIdx i] = [.openErr .passwordRequired] ∧ opSteps A (.openIdx i) = 1 := by
+  have hg : A.g i .noPw = none := by simp [Arch.g, needsPw, he, henc]
+  refine ⟨?_, by simp [opSteps, hg]⟩
+  simp [runAlone, soloFinal, atomicSteps, opSteps, hg, soloRun, stepH, Handle.init, doOp, beginOpen,
+    he, henc, Handle.emit, needsPw]
+
+/-- A password given for a PLAIN entry is discarded: same observations as without one, for the call
+and for everything the handle does afterwards. -/
+theorem password_on_plain_entry_ignored (A : Arch) (i : Nat) (p : Bytes) (e : Entry)
+    (he : A.entries[i]? = some e) (henc : e.encrypted = false) (rest : List Op) :
+    runAlone A (.openDec i p :: rest) = runAlone A (.openIdx i :: rest) := by
+  have hg : A.g i (.pw p) = A.g i .noPw := by simp [Arch.g, needsPw, he, henc]
+  have hsteps : opSteps A (.openDec i p) = opSteps A (.openIdx i) := by simp [opSteps, hg]
+  have key : soloRun A (initCells A) (Handle.init (.openDec i p :: rest)) (opSteps A (.openDec i p)) =
+      soloRun A (initCells A) (Handle.init (.openIdx i :: rest)) (opSteps A (.openIdx i)) := by
+    cases hv : A.g i .noPw with
+    | some v =>
+      have h3 : opSteps A (.openIdx i) = 3 := by simp [opSteps, hv]
+      rw [hsteps, h3,
+        solo_open3 A _ (Handle.init (.openDec i p :: rest)) _ rest rfl rfl i (.pw p) rfl v (hg ▸ hv),
+        solo_open3 A _ (Handle.init (.openIdx i :: rest)) _ rest rfl rfl i .noPw rfl v hv]
+      congr 1
+      simp only [finishOpen, beginOpen, he, henc, needsPw, Handle.init, Handle.emit,
+        Bool.not_false, Bool.false_eq_true, if_false, if_true]
+      cases findContent A.bytes e.headerStart <;> cases e.decodable <;> simp
+    | none =>
+      have h1 : opSteps A (.openIdx i) = 1 := by simp [opSteps, hv]
+      rw [hsteps, h1]
+      show stepH A (initCells A) (Handle.init (.openDec i p :: rest)) =
+        stepH A (initCells A) (Handle.init (.openIdx i :: rest))
+      have hf : A.f i = none := by simpa [Arch.g, needsPw, he, henc] using hv
+      unfold Arch.f at hf
+      rw [he] at hf
+      simp only at hf
+      simp only [stepH, Handle.init, doOp, beginOpen, he, needsPw, henc, Bool.false_eq_true, if_false]
+      cases hfc : findContent A.bytes e.headerStart with
+      | ok w => rw [hfc] at hf; cases hf
+      | err er => rfl
+      | panic => rfl
+  unfold runAlone soloFinal
+  have e1 : atomicSteps A (.openDec i p :: rest) = opSteps A (.openDec i p) + atomicSteps A rest := by
+    simp [atomicSteps]
+  have e2 : atomicSteps A (.openIdx i :: rest) = opSteps A (.openIdx i) + atomicSteps A rest := by
+    simp [atomicSteps]
+  rw [e1, e2, soloRun_add, soloRun_add, key]
 
 /-! ### Non-vacuity: a concrete archive, two handles, two entries -/
 
@@ -130,8 +247,8 @@ def lfh (name : UInt8) (data : Bytes) : Bytes :=
 def demo : Arch where
   bytes := lfh 0x61 [0x68, 0x65, 0x6c, 0x6c, 0x6f] ++ lfh 0x62 [0x78, 0x79, 0x7a]
   entries :=
-    [ ⟨[0x61], 0, 5, 5, 0x3610a686, true, true, []⟩,
-      ⟨[0x62], 36, 3, 3, 0x2e7e42a4, true, true, []⟩ ]
+    [ ⟨[0x61], 0, 5, 5, 0x3610a686, true, true, [], false, none⟩,
+      ⟨[0x62], 36, 3, 3, 0x2e7e42a4, true, true, [], false, none⟩ ]
 
 def scriptA : List Op := [.openIdx 0, .read 2, .dataStart, .read 10]
 def scriptB : List Op := [.openIdx 0, .read 3, .openIdx 1, .dataStart, .read 2, .info]
@@ -159,7 +276,7 @@ the same entry (the hypothesis of `store_value_determined`): both carry the same
 example : (run demo (Sys.init demo [scriptA, scriptB]) demoSched).cells = [31, 67] := by decide
 
 example : (run demo (Sys.init demo [scriptA, scriptB]) [0, 1]).hs.map (·.pc) =
-    [.storing 0 false 31, .storing 0 false 31] ∧
+    [.storing 0 .noPw 31, .storing 0 .noPw 31] ∧
     (run demo (Sys.init demo [scriptA, scriptB]) [0, 1]).cells = [0, 0] := by decide
 
 /-- The same two scripts at call granularity (handle 0 opens and reads a bit, handle 1 opens the same
@@ -184,5 +301,74 @@ example : runInterleaved demoBad
       [1, 0, 1, 0, 1, 0, 1, 0, 1, 0, 0] =
     [[.openErr .invalidArchive, .noFile, .opened, .dataStart 67],
      [.openErr .fileNotFound, .opened, .bytes [0x78, 0x79, 0x7a]]] := by decide
+
+/-! ### Encrypted entries: the verdict for a password does not depend on what other handles did -/
+
+/-- `demo` plus a third, encrypted entry "c" (stored bytes = 14 opaque bytes at 100, header at 69); the
+parameter accepts exactly the password `[1]` (content "OK") and - like a ZipCrypto check-byte collision -
+`[9]` with garbage content whose final read fails. -/
+def demoEnc : Arch where
+  bytes := demo.bytes ++ lfh 0x63 (List.replicate 14 0xEE)
+  entries := demo.entries ++ [ ⟨[0x63], 70, 14, 2, 0x11223344, true, true, [], true, none⟩ ]
+  unlock := fun i p =>
+    if i = 2 ∧ p = [1] then .opens [0x4f, 0x4b] none
+    else if i = 2 ∧ p = [9] then .opens [0x21, 0x3f] (some .other)
+    else .wrong
+
+example : demoEnc.f 2 = some 101 := by decide
+
+/-- Hypotheses of `decrypt_outcome_by_entry_and_password` on a concrete instance, all three verdicts. -/
+example : runAlone demoEnc [.openDec 2 [1], .read 10] = [.opened, .bytes [0x4f, 0x4b]] ∧
+    runAlone demoEnc [.openDec 2 [7]] = [.invalidPassword] ∧
+    runAlone demoEnc [.openDec 2 []] = [.invalidPassword] ∧
+    runAlone demoEnc [.openIdx 2] = [.openErr .passwordRequired] ∧
+    runAlone demoEnc [.openNameDec [0x63] [9], .read 2, .read 1, .read 1] =
+      [.opened, .bytes [0x21, 0x3f], .readErr .other, .readErr .other] ∧
+    runAlone demoEnc [.openDec 0 [7], .read 9] = runAlone demoEnc [.openIdx 0, .read 9] := by decide
+
+/-- Handle 0 validates the right password, handle 1 presents a wrong one, the empty one and the name of
+the entry with a wrong one - BEFORE, BETWEEN and AFTER handle 0's steps; handle 2 makes a failing read.
+Every handle sees exactly its solo observations (an instance of `interleave_independent`). -/
+example :
+    let scripts : List (List Op) :=
+      [[.openDec 2 [1], .read 1, .dataStart, .read 5],
+       [.openDec 2 [7], .openDec 2 [], .openNameDec [0x63] [7], .openDec 2 [1], .read 2],
+       [.openDec 2 [9], .read 5]]
+    let sched := [1, 0, 1, 0, 1, 0, 2, 0, 1, 2, 1, 0, 2, 1, 1, 1, 2, 0, 1, 1, 1, 1, 1]
+    IsInterleaving demoEnc scripts sched ∧
+    runInterleaved demoEnc scripts sched =
+      [[.opened, .bytes [0x4f], .dataStart 101, .bytes [0x4b]],
+       [.invalidPassword, .invalidPassword, .invalidPassword, .opened, .bytes [0x4f, 0x4b]],
+       [.opened, .readErr .other]] := by decide
+
+/-! ### The hypothesis on the reader: clones must not share their position -/
+
+/-- The system one gets when `R::clone` does NOT give an independent cursor (`ZipArchive<&File>`: every
+clone seeks and reads through the same OS file offset): identical to `Sys.step`, except that the acting
+handle starts from, and leaves behind, ONE shared position. -/
+def stepSharedPos (A : Arch) (s : Sys × Nat) (h : Nat) : Sys × Nat :=
+  match s.1.hs[h]? with
+  | none => s
+  | some H =>
+    let r := stepH A s.1.cells { H with pos := s.2 }
+    (⟨r.1, s.1.hs.set h r.2⟩, r.2.pos)
+
+def runSharedPos (A : Arch) (scripts : List (List Op)) (sched : List Nat) : List (List Obs) :=
+  (sched.foldl (stepSharedPos A) (Sys.init A scripts, 0)).1.hs.map (·.obs)
+
+/-- With a shared position `interleave_independent` is FALSE: handle 0 opens "hello", reads 2 bytes, handle 1
+opens "xyz" (moving the shared offset), handle 0 resumes and receives entry 1's bytes.  (On the crate the
+same schedule over `ZipArchive<&File>` returns wrong bytes followed by "Invalid checksum".)  Hence the
+hypothesis "each handle's reader has its own position" - structural in `Model/Clones.lean`, stated in the
+claim text - cannot be dropped. -/
+theorem sharedPos_breaks_independence :
+    ∃ (A : Arch) (scripts : List (List Op)) (sched : List Nat), IsInterleaving A scripts sched ∧
+      runSharedPos A scripts sched ≠ scripts.map (runAlone A) :=
+  ⟨demo, [[.openIdx 0, .read 2, .read 3], [.openIdx 1, .read 1]], [0, 0, 0, 0, 1, 1, 1, 1, 0],
+    by decide, by decide⟩
+
+example : runSharedPos demo [[.openIdx 0, .read 2, .read 3], [.openIdx 1, .read 1]]
+      [0, 0, 0, 0, 1, 1, 1, 1, 0] =
+    [[.opened, .bytes [0x68, 0x65], .bytes [0x79, 0x7a]], [.opened, .bytes [0x78]]] := by decide
 
 end ZipVerif.Props.C20
